@@ -67,7 +67,11 @@ def attempt(fn):
     try:
         return {'val': fn()}
     except BaseException as e:
-        return {'err': type(e).__name__, 'msg': str(e)[:200]}
+        try:
+            msg = str(e)[:200]
+        except BaseException:       # rendering a library error can itself fail (C14's subject, not C01's)
+            msg = '<unrenderable>'
+        return {'err': type(e).__name__, 'msg': msg}
 
 
 def run_case(c):
